@@ -1,19 +1,27 @@
 (* C07 — PAT decoding: program count, program map and single-program PID are exact.
-   Statements only; proofs in Proofs/Pat.v (payload carrier) and Proofs/PatCarriers.v (packet and
-   stream carriers, IsPMT).  Spec/PatSpec.v: `ser_payload s rest` = pointer_field 0, the program
-   association section of the logical record s (any entry list with section_length < 1024, any
-   reserved bits), then any trailing bytes; `ser_packet h af payload` = the 188-byte packet.
-   Hypothesis of the theorems up to C07_packet_fields: pointer_field = 0.  The section C07_pointer_nonzero_* below
-   (Proofs/PatPointer.v) says exactly what the code does for pointer_field = k > 0, which is why the hypothesis is
-   needed: NumPrograms honours the pointer, ProgramMap / SPTSpmtPID / IsPMT decode from the fixed payload offset 9. *)
+   Statements only; proofs in Proofs/Pat.v (payload carrier), Proofs/PatCarriers.v (packet and stream carriers, IsPMT)
+   and Proofs/PatPointer.v (witnesses, oracle).  Spec/PatSpec.v:
+   `ser_payload_pf k filler s rest` = the pointer_field byte k, the k bytes that precede the section (the end of a
+   previous section or stuffing: ANY bytes), the program association section of the logical record s (any entry list
+   with section_length < 1024, any reserved bits), then any trailing bytes; `ser_payload s rest` is the case k = 0,
+   filler = [] (C07_payload_pf0); `ser_packet h af payload` = the 188-byte packet.
+   Every theorem holds for EVERY pointer_field k (k < 256 = any byte; hypothesis `len filler = k` = the pointer says how
+   many bytes precede the section).  Round 1 and 2 needed pointer_field = 0: the accessors hard-coded payload offset 9
+   (finding P1, notes/findings/C07.md), repaired in /repo commit 3223166, which Model/Pat.v follows;
+   C07_pointer_nonzero_before_fix keeps the old behaviour on record. *)
 From Gots Require Import Base.Prelude Model.Pat Spec.PatSpec Proofs.Pat Proofs.PatCarriers Proofs.PatPointer.
 Import PatSpec.
 Local Open Scope N_scope.
 
+Theorem C07_payload_pf0 : forall s rest, ser_payload s rest = ser_payload_pf 0 [] s rest.
+Proof. exact ser_payload_pf0. Qed.
+Print Assumptions C07_payload_pf0.
+
 (* ---- the three carriers deliver the same PAT object ---- *)
 (* payload bytes (NewPAT treats a slice of exactly 188 bytes as a packet: excluded, see notes/findings/C07.md) *)
-Theorem C07_new_pat_payload : forall s rest, wf_section s -> len (ser_payload s rest) <> 188 ->
-  Pat.new_pat (ser_payload s rest) = Ok (ser_payload s rest).
+Theorem C07_new_pat_payload : forall k filler s rest, wf_section s -> len filler = k ->
+  len (ser_payload_pf k filler s rest) <> 188 ->
+  Pat.new_pat (ser_payload_pf k filler s rest) = Ok (ser_payload_pf k filler s rest).
 Proof. exact new_pat_payload. Qed.
 Print Assumptions C07_new_pat_payload.
 
@@ -23,16 +31,22 @@ Theorem C07_new_pat_packet : forall pkt, len pkt = 188 ->
 Proof. exact new_pat_packet. Qed.
 Print Assumptions C07_new_pat_packet.
 
-Theorem C07_packet_carrier : forall h af s rest, wf_section s -> wf_packet h af (ser_payload s rest) ->
-  Pat.new_pat (ser_packet h af (ser_payload s rest)) = Ok (ser_payload s rest).
+(* a payload that fits into a packet (wf_packet: 4 + adaptation field + payload = 188 bytes) has pointer_field <= 171 *)
+Theorem C07_packet_carrier : forall h af k filler s rest, wf_section s -> len filler = k ->
+  wf_packet h af (ser_payload_pf k filler s rest) ->
+  Pat.new_pat (ser_packet h af (ser_payload_pf k filler s rest)) = Ok (ser_payload_pf k filler s rest).
 Proof. exact packet_carrier. Qed.
 Print Assumptions C07_packet_carrier.
+Theorem C07_packet_pointer_bound : forall h af k filler s rest, wf_section s -> len filler = k ->
+  wf_packet h af (ser_payload_pf k filler s rest) -> k <= 171.
+Proof. exact packet_pointer_bound. Qed.
+Print Assumptions C07_packet_pointer_bound.
 
 (* ReadPAT: any prefix of packets of other PIDs is skipped; what follows the PAT packet does not matter *)
-Theorem C07_read_pat : forall others h af s rest more, Forall other_pid others ->
-  wf_section s -> wf_packet h af (ser_payload s rest) -> ppid h = 0 ->
-  Pat.read_pat (map Pat.RFull others ++ Pat.RFull (ser_packet h af (ser_payload s rest)) :: more)
-  = Ok (ser_payload s rest).
+Theorem C07_read_pat : forall others h af k filler s rest more, Forall other_pid others ->
+  wf_section s -> len filler = k -> wf_packet h af (ser_payload_pf k filler s rest) -> ppid h = 0 ->
+  Pat.read_pat (map Pat.RFull others ++ Pat.RFull (ser_packet h af (ser_payload_pf k filler s rest)) :: more)
+  = Ok (ser_payload_pf k filler s rest).
 Proof. exact stream_carrier. Qed.
 Print Assumptions C07_read_pat.
 
@@ -43,33 +57,35 @@ Theorem C07_read_pat_not_found : forall pkts e, Forall other_pid pkts -> e = E.E
 Proof. exact read_pat_not_found. Qed.
 Print Assumptions C07_read_pat_not_found.
 
-(* ---- the accessors on the delivered PAT ---- *)
-Theorem C07_num_programs : forall s rest, wf_section s ->
-  Pat.num_programs (ser_payload s rest) = Ok (Z.of_nat (length (entries s))).
+(* ---- the accessors on the delivered PAT, for every pointer_field ---- *)
+Theorem C07_num_programs : forall k filler s rest, wf_section s -> k < 256 -> len filler = k ->
+  Pat.num_programs (ser_payload_pf k filler s rest) = Ok (Z.of_nat (length (entries s))).
 Proof. exact num_programs_ok. Qed.
 Print Assumptions C07_num_programs.
 
 (* exactly the entries with non-zero program_number, mapped to their 13-bit PID; the last entry of a
    program_number wins; keys are unique (so comparing sorted maps is comparing maps) *)
-Theorem C07_program_map : forall s rest, wf_section s ->
-  exists m, Pat.program_map (ser_payload s rest) = Ok m /\ NoDup (map fst m) /\
+Theorem C07_program_map : forall k filler s rest, wf_section s -> k < 256 -> len filler = k ->
+  exists m, Pat.program_map (ser_payload_pf k filler s rest) = Ok m /\ NoDup (map fst m) /\
             forall p x, In (p, x) m <-> map_lookup (entries s) p = Some x.
 Proof. exact program_map_spec. Qed.
 Print Assumptions C07_program_map.
 
-Theorem C07_spts_pid_iff : forall s rest x, wf_section s ->
-  (Pat.spts_pmt_pid (ser_payload s rest) = Ok x <-> exists e, entries s = [e] /\ pn e <> 0 /\ pid e = x).
+Theorem C07_spts_pid_iff : forall k filler s rest x, wf_section s -> k < 256 -> len filler = k ->
+  (Pat.spts_pmt_pid (ser_payload_pf k filler s rest) = Ok x <-> exists e, entries s = [e] /\ pn e <> 0 /\ pid e = x).
 Proof. exact spts_iff. Qed.
 Print Assumptions C07_spts_pid_iff.
 
-Theorem C07_spts_pid_fails_otherwise : forall s rest, wf_section s ->
-  (forall x, Pat.spts_pmt_pid (ser_payload s rest) <> Ok x) -> Pat.spts_pmt_pid (ser_payload s rest) = Err E.Other.
+Theorem C07_spts_pid_fails_otherwise : forall k filler s rest, wf_section s -> k < 256 -> len filler = k ->
+  (forall x, Pat.spts_pmt_pid (ser_payload_pf k filler s rest) <> Ok x) ->
+  Pat.spts_pmt_pid (ser_payload_pf k filler s rest) = Err E.Other.
 Proof. exact spts_fails. Qed.
 Print Assumptions C07_spts_pid_fails_otherwise.
 
 (* ---- IsPMT ---- *)
-Theorem C07_is_pmt_iff : forall pkt s rest x, wf_section s -> Pat.PatPkt.pid pkt = Ok x ->
-  exists b, Pat.is_pmt pkt (Some (ser_payload s rest)) = Ok b /\
+Theorem C07_is_pmt_iff : forall pkt k filler s rest x, wf_section s -> k < 256 -> len filler = k ->
+  Pat.PatPkt.pid pkt = Ok x ->
+  exists b, Pat.is_pmt pkt (Some (ser_payload_pf k filler s rest)) = Ok b /\
             (b = true <-> exists p, map_lookup (entries s) p = Some x).
 Proof. exact is_pmt_iff. Qed.
 Print Assumptions C07_is_pmt_iff.
@@ -85,60 +101,41 @@ Theorem C07_packet_fields : forall h af pay, wf_packet h af pay ->
 Proof. exact packet_fields. Qed.
 Print Assumptions C07_packet_fields.
 
-(* ---- pointer_field = k: `ser_payload_pf k filler s rest` = the pointer byte k, k bytes that precede the section
-        (the end of a previous section or stuffing), the section, then anything.  For EVERY k < 256:
-        NewPAT accepts the bytes as they are (C07_pointer_nonzero_new_pat), SectionLength / NumPrograms honour the
-        pointer and return the number of entries, but ProgramMap decodes the n = NumPrograms() four-byte groups that
-        begin at payload offset 9 - `seen`: bytes 8.. of what follows the pointer byte - which are the entries only
-        when k = 0 (C07_pointer_zero_seen); for k > 0 they are the k bytes before the entry loop and all but the last
-        k bytes of it.  SPTSpmtPID and IsPMT follow ProgramMap. ---- *)
-Theorem C07_pointer_nonzero_new_pat : forall k filler s rest, wf_section s -> k < 256 -> len filler = k ->
-  len (ser_payload_pf k filler s rest) <> 188 ->
-  Pat.new_pat (ser_payload_pf k filler s rest) = Ok (ser_payload_pf k filler s rest).
-Proof. exact new_pat_pf. Qed.
-Print Assumptions C07_pointer_nonzero_new_pat.
-Theorem C07_pointer_nonzero_num_programs : forall k filler s rest, wf_section s -> k < 256 -> len filler = k ->
-  Pat.num_programs (ser_payload_pf k filler s rest) = Ok (Z.of_nat (length (entries s))).
-Proof. exact num_programs_pf. Qed.
-Print Assumptions C07_pointer_nonzero_num_programs.
-Theorem C07_pointer_nonzero_program_map : forall k filler s rest, wf_section s -> k < 256 -> len filler = k ->
-  is_bytes filler -> is_bytes rest ->
-  exists m, Pat.program_map (ser_payload_pf k filler s rest) = Ok m /\ NoDup (map fst m) /\
-            forall p x, In (p, x) m <-> map_lookup (seen filler s rest) p = Some x.
-Proof. exact program_map_pf_spec. Qed.
-Print Assumptions C07_pointer_nonzero_program_map.
-Theorem C07_pointer_nonzero_spts : forall k filler s rest, wf_section s -> k < 256 -> len filler = k ->
-  is_bytes filler -> is_bytes rest ->
-  Pat.spts_pmt_pid (ser_payload_pf k filler s rest) =
-  if (1 <? Z.of_nat (length (entries s)))%Z then Err E.Other else
-  match seen filler s rest with [e] => if pn e =? 0 then Err E.Other else Ok (pid e) | _ => Err E.Other end.
-Proof. exact spts_pf. Qed.
-Print Assumptions C07_pointer_nonzero_spts.
-Theorem C07_pointer_zero_seen : forall s rest, wf_section s -> seen [] s rest = entries s.
-Proof. exact seen_pf0. Qed.
-Print Assumptions C07_pointer_zero_seen.
-
-(* the property as its text reads - program map / single-program PID exact for every well-formed section supplied as
-   payload bytes, whatever the pointer_field - is therefore FALSE of the code: *)
+(* ---- pointer_field > 0: finding P1 and its repair.  The statement that round 2 had to refute
+        (C07_program_map_any_pointer_full_refuted) is now the theorem C07_program_map above; restated under its old name: ---- *)
 Definition C07_program_map_any_pointer_full : Prop :=
   forall k filler s rest, wf_section s -> k < 256 -> len filler = k -> is_bytes filler -> is_bytes rest ->
   exists m, Pat.program_map (ser_payload_pf k filler s rest) = Ok m /\
             forall p x, In (p, x) m <-> map_lookup (entries s) p = Some x.
-(* C07_program_map above is the part that holds (k = 0, `_partial` in the sense of the guide); witness against the
-   full statement: one program 1 -> PID 0x100, pointer_field 1, one stuffing byte: NumPrograms = 1 but the map is
-   empty and SPTSpmtPID fails (replay in notes/findings/C07.md) *)
-Theorem C07_pointer_nonzero_refuted :
+Theorem C07_program_map_any_pointer_full_holds : C07_program_map_any_pointer_full.
+Proof. exact any_pointer_full_holds. Qed.
+Print Assumptions C07_program_map_any_pointer_full_holds.
+(* the round-2 witness (one program 1 -> PID 0x100, pointer_field 1, one stuffing byte; replay
+   `pat.new x01ff00b00d0001c100000001e10001020304`, a `fixed` entry of known_findings.json) now decodes correctly ... *)
+Theorem C07_pointer_nonzero_witness :
   wf_section wit_section /\
   wit_payload = [1; 255; 0; 0xB0; 13; 0; 1; 0xC1; 0; 0; 0; 1; 0xE1; 0; 1; 2; 3; 4] /\
   Pat.new_pat wit_payload = Ok wit_payload /\
   Pat.num_programs wit_payload = Ok 1%Z /\
-  Pat.program_map wit_payload = Ok [] /\ map_lookup (entries wit_section) 1 = Some 0x100 /\
-  Pat.spts_pmt_pid wit_payload = Err E.Other /\ spts (entries wit_section) = Some 0x100.
+  Pat.program_map wit_payload = Ok [(1, 0x100)] /\ map_lookup (entries wit_section) 1 = Some 0x100 /\
+  Pat.spts_pmt_pid wit_payload = Ok 0x100 /\ spts (entries wit_section) = Some 0x100.
 Proof. exact pointer_nonzero_witness. Qed.
-Print Assumptions C07_pointer_nonzero_refuted.
-Theorem C07_program_map_any_pointer_full_refuted : ~ C07_program_map_any_pointer_full.
-Proof. exact any_pointer_full_refuted. Qed.
-Print Assumptions C07_program_map_any_pointer_full_refuted.
+Print Assumptions C07_pointer_nonzero_witness.
+(* ... while the accessors as they were before 3223166 (Model/Pat.v keeps them as the `_with` functions: entry loop from
+   the fixed payload offset 9) return an empty map and fail: what bin/check reports if the repair is reverted *)
+Theorem C07_pointer_nonzero_before_fix :
+  Pat.num_programs_with Pat.PatPsi.section_length wit_payload = Ok 1%Z /\
+  Pat.program_map_with Pat.PatPsi.section_length wit_payload = Ok [] /\
+  Pat.spts_pmt_pid_with Pat.PatPsi.section_length wit_payload = Err E.Other.
+Proof. exact pointer_nonzero_before_fix. Qed.
+Print Assumptions C07_pointer_nonzero_before_fix.
+(* the largest pointer_field, 255 bytes of filler (bare payload carrier) *)
+Theorem C07_pointer_255_example :
+  let pay := ser_payload_pf 255 (repeat 255 255) wit_section [9; 9] in
+  len pay = 274 /\ Pat.new_pat pay = Ok pay /\ Pat.num_programs pay = Ok 1%Z /\ Pat.program_map pay = Ok [(1, 0x100)] /\
+  Pat.spts_pmt_pid pay = Ok 0x100.
+Proof. exact pointer_255_example. Qed.
+Print Assumptions C07_pointer_255_example.
 
 (* ---- the executable oracle `spec.pat` of modelexec (Spec/PatSpec.v: spec_num / spec_map / spts / spec_is_pmt, computed
         from the logical entry list alone) is the map of the theorems: exactly the pairs of map_lookup, keys strictly
@@ -149,17 +146,18 @@ Proof. intros es. exact (conj (spec_map_in es) (spec_map_keys_incr es)). Qed.
 Print Assumptions C07_spec_oracle_map.
 
 (* non-vacuity: a three-entry section (network entry, a program, the same program again with PID high
-   bits and reserved bits set) in a packet with an adaptation field *)
+   bits and reserved bits set) behind pointer_field 3 with arbitrary filler, in a packet with an adaptation field *)
 Definition ex_section : section :=
   mkS 0xB [0; 1; 0xC1; 0; 0] [mkE 0 0x10 7; mkE 1 0x100 7; mkE 1 0x1FFF 0] [1; 2; 3; 4].
+Definition ex_payload : bytes := ser_payload_pf 3 [0xAA; 0; 0x47] ex_section [].
 Example C07_nonvacuous :
-  wf_section ex_section /\
-  ser_payload ex_section [] = [0; 0; 0xB0; 21; 0; 1; 0xC1; 0; 0; 0; 0; 0xE0; 0x10; 0; 1; 0xE1; 0; 0; 1; 0x1F; 0xFF; 1; 2; 3; 4] /\
-  Pat.num_programs (ser_payload ex_section []) = Ok 3%Z /\
-  Pat.program_map (ser_payload ex_section []) = Ok [(1, 0x1FFF)] /\
+  wf_section ex_section /\ len [0xAA; 0; 0x47] = 3 /\
+  ex_payload = [3; 0xAA; 0; 0x47; 0; 0xB0; 21; 0; 1; 0xC1; 0; 0; 0; 0; 0xE0; 0x10; 0; 1; 0xE1; 0; 0; 1; 0x1F; 0xFF; 1; 2; 3; 4] /\
+  Pat.num_programs ex_payload = Ok 3%Z /\
+  Pat.program_map ex_payload = Ok [(1, 0x1FFF)] /\
   map_lookup (entries ex_section) 1 = Some 0x1FFF /\ map_lookup (entries ex_section) 0 = None /\
-  Pat.spts_pmt_pid (ser_payload ex_section []) = Err E.Other /\
-  wf_packet (mkH 2 0 0 5) (Some (0 :: repeat 255 157)) (ser_payload ex_section []).
-Proof. unfold wf_section, wf_packet, wf_hdr, wf_entry, is_bytes, is_byte, ex_section.
+  Pat.spts_pmt_pid ex_payload = Err E.Other /\
+  wf_packet (mkH 2 0 0 5) (Some (0 :: repeat 255 154)) ex_payload.
+Proof. unfold wf_section, wf_packet, wf_hdr, wf_entry, is_bytes, is_byte, ex_section, ex_payload.
   repeat split; cbn [flags hdr entries crc pn pid res b1hi ppid tsc cc]; try reflexivity; try lia; repeat constructor; try lia.
   all: try (vm_compute; reflexivity). Qed.
